@@ -4,7 +4,7 @@ from lib import vlib
 
 RULE = ("trees: every tagged tree up to depth 2 over the 8 plain uGO kinds (u2g) and over the 8 canonical Go kinds (g2u), and every "
         "other Go kind of the width table bare / inside a slice / inside a map; TLC checks ToO o ToI = id and ToI o ToO = id on the "
-        "model and exports tree + expected image; the harness instantiates every tree with 3 boundary-value variants (extreme "
+        "model and exports tree + expected image; the harness instantiates every tree with 3 boundary-value variants, every width-table kind with 2 to 9 (extremes of the width, zero, float32 values that are no short decimals, subnormals; extreme "
         "integers, NaN/-Inf, invalid UTF-8, nil vs empty containers) and compares ToInterface / ToObject / ToObjectAlt; "
         "non-trivial = trees with a container or a width-table kind")
 
@@ -14,13 +14,15 @@ def run(ctx):
     res = ctx.path("b-res.ndjson")
     ctx.vh("c20", out, res)
     cases = vlib.read_tlc_export(out)
-    ctx.evaluations = sum(2 if c["d"] == "width" else 3 for c in cases)
     ctx.traces_validated = len(cases)
     ctx.nontrivial = sum(1 for c in cases if c["d"] == "width" or c["t"]["k"] != "leaf")
     ctx.exhaustive = True
     for c in cases[::150]:
         ctx.sample(c)
     for r in vlib.read_ndjson(res):
+        if r.get("summary"):
+            ctx.evaluations = r["evaluations"]
+            continue
         key = vlib.sha(json.dumps(r["case"], sort_keys=True) + str(r["variant"]))
         ctx.violation(key, "%s (variant %d of %s)" % (r["what"], r["variant"], json.dumps(r["case"])[:300]), r)
     ctx.assumptions += ["boundary-value variants stand for 'all values' of a kind", "width table of UgoBoundary.tla: ToObject treats int32/uint8 as rune/byte, ToObjectAlt converts every integer width"]
